@@ -67,7 +67,7 @@ CHECKS = {
             'splice filter for all byte strings <= N; keyword() maps exactly the documented spellings for all identifiers <= 14 bytes. One-step + composition, solver-decided.'),
     'C14': ('model_checking', 'DESIGN.md C14',
             'utf8dec on all 2^32 four-byte windows x n, utf8enc/utf16enc on all scalar values against RFC 3629; decodechar/stringconcat/character constants on symbolic '
-            'source bytes against a reference decoder, per prefix and target.'),
+            'source bytes against a reference decoder, per prefix and target; string literals (stringconcat/decodechar/encodechar*) on concrete item shapes with symbolic contents for all prefixes and two-token concatenations.'),
     'C15': ('model_checking', 'DESIGN.md C15',
             'One treeinsert step from every AVL shape (symbolic 64-bit keys) re-establishes order/balance/heights and the new flag; for every shape the real '
             'funcswitch ladder, executed by an IL semantics, reaches exactly the case whose converted constant equals a symbolic controlling value, for all four promoted types.'),
